@@ -1,9 +1,9 @@
 """C02 — serialization emits valid JSON denoting the tree; parse(serialize(T)) = T.
 
 Script line:  ser <tree in jvtext> <flags>,<flags>,... [<op>;<op>;...]
-The optional history (see harness/drv_ser.c: C K R<flags> D I U B T A X) is applied to the tree through
+The optional history (see harness/drv_ser.c: C K R<flags> D I U B T Z W Y G A X) is applied to the tree through
 the public API before it is serialized ("every tree built through the API": deep copies, in-place
-setters, parser-built trees, replaced and deleted children); with a history the observation starts with
+setters, parser-built trees, opaque userdata, serializer resets, replaced and deleted children); with a history the observation starts with
 "R <text hex>" per R operation, "tree <typed dump>" and, after K, "aside <typed dump>".
 Observation per flag value (" | " between them):
     <text hex> <reported length> <equal(orig,reparsed)> <typed dump of reparsed> <re-serialization hex>
@@ -365,7 +365,7 @@ def expected_reparse(tree, tok_of):
         return [expected_reparse(x, tok_of) for x in tree]
     if tree[0] == "o":
         return ("o", [(cstr(k), expected_reparse(x, tok_of)) for k, x in tree[1]])
-    tok = next(tok_of)
+    tok = next(tok_of, b"?")          # a text with fewer number tokens than the tree has numbers: reported elsewhere
     if tree[0] == "i":
         return tree
     if tree[0] == "u":
@@ -539,6 +539,11 @@ def hist_step(t, aside, op, rtext):
             return t, aside, "R flags %d: %s" % (f, m)
         return expected_reparse(t, iter([x for kk, x in toks if kk == "n"])), aside, None
     path, rest = parse_path(body)
+    if k in "ZYG":
+        # serializer reset (with or without new opaque userdata): a double loses its retained text
+        return upd(t, path, lambda n: ("d", n[1], None) if isinstance(n, tuple) and n[0] == "d" else n), aside, None
+    if k == "W":
+        return t, aside, None               # opaque userdata is not part of the value
     if k in "DIUBT":
         arg = rest[1:]
         if k == "D":
@@ -576,21 +581,50 @@ def pstr(path):
     return ".".join(str(i) for i in path) if path else "@"
 
 
+TAGS = [b"row 7 of 12", b"%.3f", b"n/a", b"", b"1e5", b"%.0f", b"%d items", b"\x01\xff", b"\"x\"", b"%5.1f%%", None]
+
+
+def tag_arg(rng):
+    t = rng.choice(TAGS)
+    return "~" if t is None else jvtext.hx(t)
+
+
 def gen_history(rng, tree, nops):
     """a history of nops API calls aimed at the nodes the tree has at that point (R is not simulated
-    here: after an R the generator keeps aiming with the pre-R shape, which R preserves)"""
+    here: after an R the generator keeps aiming with the pre-R shape, which R preserves).  Once opaque
+    userdata is attached no deep copy is taken until a re-parse made a fresh tree:
+    json_c_shallow_copy_default refuses userdata it does not know (documented)."""
     ops = []
     t = tree
+    tagged = False
     for _ in range(nops):
         ns = list(nodes(t))
         r = rng.random()
-        if r < 0.22:
+        if r < 0.22 and not tagged:
             ops.append(rng.choice(["C", "C", "K"]))
             continue
         if r < 0.30:
             ops.append("R%d" % rng.choice([0, 0, 1, 2, 3, 4, 10, 16, 32, 63, rng.randrange(64)]))
+            tagged = False
             continue
         path, n = rng.choice(ns)
+        if r < 0.48 and n is not None:
+            # userdata / serializer operations, on every node type, biased to doubles
+            ds = [x for x in ns if isinstance(x[1], tuple) and x[1][0] == "d"]
+            if ds and rng.random() < 0.6:
+                path, n = rng.choice(ds)
+            k = rng.choice("ZZWWYG")
+            if k == "Y":
+                arg = jvtext.hx(rng.choice([b"1.5", b"x", b"", b"%s"]))
+            elif k == "G":
+                arg = jvtext.hx(rng.choice([b"%.3f", b"%.0f", b"%f", b"%e"]))
+            else:
+                arg = tag_arg(rng)
+                tagged = tagged or arg != "~"
+            op = "%s%s=%s" % (k, pstr(path), arg)
+            ops.append(op)
+            t, _, _ = hist_step(t, None, op, None)
+            continue
         mism = rng.random() < 0.12            # a setter of another type: must leave the node alone
         kind = ("d" if isinstance(n, tuple) and n[0] == "d" else "i" if isinstance(n, tuple) and n[0] in "iu" else
                 "b" if is_bool(n) else "s" if isinstance(n, bytes) else "c" if children(n) is not None else "n")
@@ -740,8 +774,31 @@ def gen(rng, tier):
         addh(d15, pre + ["D@=" + newbits], "history-fixed", [0, 1, 2, 4, 16, 63])
         addh(parsed, ["R0"] + pre + ["D0.1=" + newbits], "history-fixed", [0, 1, 2, 4, 16, 63])
         addh([d15, ("i", 1)], pre + ["D0=" + newbits, "I1=-5"], "history-fixed", [0, 3, 63])
+    # (a') opaque userdata and serializer resets: every way a double's serializer gets reset x userdata afterwards,
+    #      and userdata on every node type
+    plain = ("d", jvtext.dbits(0.1), None)
+    every = [None, True, ("i", -3), ("u", 2**63), ("d", jvtext.dbits(2.25), None), d15, b"s/", [("i", 1)], ("o", [(b"k", ("d", jvtext.dbits(1e-3), None))])]
+    for tag in TAGS:
+        a = "~" if tag is None else jvtext.hx(tag)
+        addh(d15, ["D@=" + newbits, "W@=" + a], "history-fixed", [0, 4, 63])          # set_double reset the serializer
+        addh(d15, ["C", "D@=" + newbits, "W@=" + a], "history-fixed", [0, 1])
+        addh(parsed, ["R0", "D0.0=" + newbits, "W0.0=" + a, "Z0.1=" + a], "history-fixed", [0, 1, 2, 63])
+        addh(d15, ["Z@=" + a], "history-fixed", [0, 4])                                  # explicit reset with userdata
+        addh(d15, ["Z@=~", "W@=" + a], "history-fixed", [0, 16])                        # explicit reset, userdata later
+        addh(plain, ["W@=" + a], "history-fixed", [0, 4, 63])                            # never had a custom serializer
+        addh(plain, ["G@=" + jvtext.hx(b"%.3f"), "W@=" + a], "history-fixed", [0, 2])    # custom format, reset, userdata
+        addh(d15, ["Y@=" + jvtext.hx(b"9.75"), "W@=" + a], "history-fixed", [0, 2])
+        addh(every, ["%s%d=%s" % (rng.choice("ZW"), i, a) for i in range(len(every))] + ["W8.0=" + a], "history-fixed", [0, 3, 36])
     for i in range(150 if quick else 1500):
         t = retained_tree(rng)
+        if i % 3 == 0:
+            ps = double_paths(t)
+            pth = pstr(rng.choice(ps))
+            how = rng.choice([["D%s=%016x" % (pth, rng.choice(LATTICE))], ["Z%s=~" % pth], ["C", "D%s=%016x" % (pth, rng.choice(LATTICE))],
+                              ["R%d" % rng.randrange(64), "D%s=%016x" % (pth, rng.choice(LATTICE))], ["Y%s=%s" % (pth, jvtext.hx(b"7"))], []])
+            tagop = ["%s%s=%s" % ("W" if how else "Z", pth, tag_arg(rng))]
+            addh(t, how + tagop + rng.choice([[], ["R0"], ["D%s=%016x" % (pth, rng.choice(LATTICE))]]), "history-userdata")
+            continue
         pre = rng.choice([["C"], ["K"], ["C"], ["K"], [], ["C", "C"], ["R%d" % rng.randrange(64), "C"], ["C", "K"]])
         ps = double_paths(t)
         sets = ["D%s=%016x" % (pstr(rng.choice(ps)), rng.choice(LATTICE)) for _ in range(rng.randint(1, 2))]
@@ -787,7 +844,7 @@ def check_fmt17_shape(tok):
     return re.match(rb"-?[0-9]+(\.[0-9]*[1-9]|\.0)?(e[+-][0-9][0-9]+)?\Z", tok) is not None
 
 
-def oracle(line, meta, impl):
+def oracle_(line, meta, impl):
     if "CRASH" in impl:
         return ("crash", "implementation crashed: " + impl[:120])
     if impl in ("MISSING", "BADLINE", "BADTREE"):
@@ -800,7 +857,7 @@ def oracle(line, meta, impl):
         flags = [int(x) for x in flags_s.split(",")]
     except Exception as e:                                  # replay files etc.
         return ("malformed", "bad script line: %r" % e)
-    if impl.endswith("LEAK") or " | LEAK " in impl:
+    if " | LEAK " in impl:
         return ("leak", "allocation leaked: " + impl[-40:])
     hist_found = None
     if ops:
@@ -936,6 +993,13 @@ def oracle(line, meta, impl):
         if c[0] != NOZERO_CLASS:
             return c
     return found[0] if found else None
+
+
+def oracle(line, meta, impl):
+    try:
+        return oracle_(line, meta, impl)
+    except Exception as e:              # the output is so far from the expected shape that a clause could not be evaluated
+        return ("malformed", "oracle could not evaluate the observation (%r): %s" % (e, impl[:120]))
 
 
 def classify(line, meta, mo, co):
